@@ -376,7 +376,11 @@ def eval_twin(case):
         else:
             n += compare(ob, ot, r, "cpp", fail)
             # C++ base vs Python base (same names): ties the two implementations to the same named values
-            opy = named_outputs_py(base, pts)
+            try:
+                opy = named_outputs_py(base, pts)
+            except Exception as e:
+                fail("raises:py", f"{type(e).__name__}: {str(e)[:200]}")
+                opy = []
             for o1, o2 in zip(ob, opy):
                 for key, v in o1.items():
                     if key in o2 and not pyimpl.close(v, o2[key], 1e-9, 4.0):
